@@ -118,8 +118,24 @@ def spectrum_case(ctx, rng, M):
                 Hs += FermionOperator(t, c)
         H = Hs if Hs.terms else H
     Hm = fock.fermion_matrix(H, n)
+    written = "normal-ordered"
+    if rng.random() < 0.4:
+        # the same operator written differently: two-body terms in chemist order a+_p a_r a+_q a_s (products of one-body
+        # operators / number operators), a+_p a+_q a_r a_s = delta_qr a+_p a_s - a+_p a_r a+_q a_s
+        Hw = FermionOperator()
+        for t, c in H.terms.items():
+            if len(t) == 4 and [d for _, d in t] == [1, 1, 0, 0] and rng.random() < 0.8:
+                (p_, _), (q_, _), (r_, _), (s_, _) = t
+                Hw += FermionOperator(((p_, 1), (r_, 0), (q_, 1), (s_, 0)), -c)
+                if q_ == r_:
+                    Hw += FermionOperator(((p_, 1), (s_, 0)), c)
+            else:
+                Hw += FermionOperator(t, c)
+        if np.abs(fock.fermion_matrix(Hw, n) - Hm).max() < 1e-12:
+            H, written = Hw, "chemist-ordered"
+    ctx.count("spectrum:written=" + written)
     full = np.linalg.eigvalsh(Hm)
-    case = {"kind": "spectrum", "M": M, "terms": len(H.terms), "seed_state": rng.getstate()[1][0]}
+    case = {"kind": "spectrum", "M": M, "terms": len(H.terms), "written": written, "seed_state": rng.getstate()[1][0]}
     ctx.case(case, nontrivial=True, sample=False)
     for utd in (False, True):
         for mapping in ("JW", "BK", "JKMN"):
